@@ -2,6 +2,7 @@
 import math
 
 import numpy as np
+import pandas as pd
 from hypothesis import strategies as st
 
 from vf.core import Sub, Violation, Skip
@@ -53,6 +54,8 @@ def cases(draw, tier):
             "explicit_mean": draw(st.booleans()),
             "strided": draw(st.booleans()),
             "scalar_param": draw(st.booleans()),
+            "pcont": draw(st.sampled_from(["array", "array", "list", "tuple",
+                                           "column", "reversed"])),
             "badlen": draw(st.sampled_from([0, 0, 1, 2, 3, 5])),
             "bad": draw(st.sampled_from(["order0", "order11", "nanparam",
                                          "nanmean", "nanini",
@@ -116,6 +119,23 @@ def oracle(case):
     if p == 1 and case["scalar_param"]:
         params = float(phi[0])
         labels.append("scalar-param")
+    else:
+        # the coefficient vector as a list, a tuple, a column of a matrix,
+        # a reversed view or float32 values
+        pc = case.get("pcont", "array")
+        if pc == "list":
+            params = phi.tolist()
+        elif pc == "tuple":
+            params = tuple(phi.tolist())
+        elif pc == "column":
+            mat = np.zeros((p, 3))
+            mat[:, 1] = phi
+            params = mat[:, 1]
+        elif pc == "reversed":
+            params = phi[::-1].copy()[::-1]
+        elif pc == "series":
+            params = pd.Series(phi)
+        labels.append(f"coefficients:{pc}")
 
     def arr(x):
         if case["strided"] and len(x) > 0:
